@@ -94,8 +94,8 @@ func genConfig(t *rapid.T, p profile) harness.Config {
 	if chance(t, "storezone", 25) {
 		c.StoreZoneH = pick(t, "zoneh", 5, -5, 13, -11, 1)
 	}
-	if chance(t, "writerwrap", 25) {
-		c.WriterWrap = pick(t, "wrapkind", "underlying", "unwrap", "unwrap")
+	if chance(t, "writerwrap", 30) {
+		c.WriterWrap = pick(t, "wrapkind", "underlying", "unwrap", "unwrap", "controller", "controller")
 	}
 	if chance(t, "localizer", 20) {
 		c.Localizer = "untranslated"
